@@ -440,6 +440,8 @@ class HistoryRun:
         self.used = {p: [] for p in PARSERS}
         self.fresh_ptr = {p: 0 for p in PARSERS}
         self.order = {p: list(range(len(pools[p]))) for p in PARSERS}
+        self.index = {p: {x: i for i, x in enumerate(pools[p])} for p in PARSERS}
+        self.last = None  # (parser, string) of the most recent parse call
         for p in PARSERS:
             self.rng.shuffle(self.order[p])
         self.edited = set()  # (parser, sid) whose returned trees were edited through a handle of that string
@@ -452,6 +454,12 @@ class HistoryRun:
     # --- parse
     def choose_string(self, p):
         r, used = self.rng.random(), self.used[p]
+        if self.last is not None and self.last[0] != p and self.last[1] in self.index[p] and self.rng.random() < 0.5:
+            sid = self.index[p][self.last[1]]   # the string the OTHER parser was given in the call before
+            if sid not in used:
+                used.append(sid)
+            self.stats["same_string_other_parser"] = self.stats.get("same_string_other_parser", 0) + 1
+            return sid
         if (r < self.p_fresh or not used) and self.fresh_ptr[p] < len(self.order[p]):
             sid = self.order[p][self.fresh_ptr[p]]
             self.fresh_ptr[p] += 1
@@ -465,6 +473,7 @@ class HistoryRun:
         p = self.main if self.rng.random() < self.p_main else [q for q in PARSERS if q != self.main][0]
         sid = self.choose_string(p)
         s = self.pools[p][sid]
+        self.last = (p, s)
         info0 = self.im.cached[p].cache_info()
         try:
             t, obs = self.im.call(p, s)
@@ -695,6 +704,10 @@ def fixed_witnesses(ctx, im):
         hists.append((f"witness|{p}|append-root", [["parse", p, s, 0], ["edit", 0, [], "append", None, ["tok", "JUNK", "J"]], ["parse", p, s, 2]]))
         hists.append((f"witness|{p}|remove-depth1", [["parse", p, s, 0], ["edit", 0, [1], "remove", 0, None], ["parse", p, s, 2]]))
         hists.append((f"witness|{p}|replace-depth1", [["parse", p, s, 0], ["edit", 0, [0], "replace", 0, ["tree", ["T", "junk", []]]], ["parse", p, s, 2]]))
+    # the same string to both parsers in consecutive calls (each parser must answer for its own grammar)
+    for s1 in ("[1]U[2]", "Muss [1]", "U"):
+        for a, b in (("cond", "ahb"), ("ahb", "cond")):
+            hists.append((f"witness|{a}-then-{b}|{s1}", [["parse", a, s1, 0], ["parse", b, s1, 1], ["parse", a, s1, 2]]))
     n, failing, reported = 0, [], set()
     for key, h in hists:
         rep = execute(im, h)
@@ -702,9 +715,11 @@ def fixed_witnesses(ctx, im):
         bad = first_failure(rep)
         if bad is not None:
             failing.append(key)
-            if h[0][1] not in reported:  # one replay per parser; the others are listed in the evidence
-                reported.add(h[0][1])
+            cat = (h[0][1], "then" in key.split("|")[1])
+            if cat not in reported:  # one replay per parser and kind; the others are listed in the evidence
+                reported.add(cat)
                 ctx.fail(key, {"history": h}, show(bad["expected"]), show(bad["observed"]),
+                         "fixed history: the same string given to both parsers in consecutive calls" if cat[1] else
                          "fixed witness of C11_refuted_when_shallow: parse; edit the returned tree; parse the same string again")
     ctx.notes["fixed_witnesses_failing"] = failing
     return n
@@ -722,6 +737,10 @@ def run(ctx):
     sizes = {"cond": 700, "ahb": 1500} if ctx.quick else {"cond": 1600, "ahb": 1600}
     profile = (0.70, 0.88, 0.58) if ctx.quick else (0.75, 0.93, 0.66)
     pools = {"cond": cond_strings(rng, sizes["cond"]), "ahb": ahb_strings(rng, sizes["ahb"])}
+    # both parsers also get strings of the other one's language (the same string may go to both parsers, in any order)
+    cross = {"cond": rng.sample(pools["ahb"], len(pools["ahb"]) // 12), "ahb": rng.sample(pools["cond"], len(pools["cond"]) // 12)}
+    for p in PARSERS:
+        pools[p] = pools[p] + [x for x in cross[p] if x not in set(pools[p])]
     t0 = time.time()
     tables = {p: [im.uncached(p, s) for s in pools[p]] for p in PARSERS}
     # A-lark-pure on a sample: the raw parser returns the same tree when asked again
